@@ -5,6 +5,7 @@ hold, plus `HIST` / `STAT` lines describing what was covered.
 -/
 import Spade.Judge
 import Spade.Extra
+import Spade.Extra2
 import Spade.Pred
 open Spade
 
@@ -37,8 +38,9 @@ def flush (ds : DS) (dump : Option St) : IO DS := do
   match ds.pendingOp, ds.pendingRes with
   | some op, some res =>
     let (h1, f1) := judge ds.h op res dump
-    let (h2, f2) := judgeExtra h1 ds.h op res dump
-    let fs := f1 ++ f2
+    let (h2a, f2) := judgeExtra h1 ds.h op res dump
+    let (h2, f3) := judgeExtra2 h2a ds.h op res dump
+    let fs := f1 ++ f2 ++ f3
     for f in fs do
       IO.println s!"FAIL {ds.h.hist} {h1.step} {op.getD 0 ""} | {f.props} | {f.clause} | [fam={ds.h.fam} scalar={ds.h.scalar} kind={ds.h.kind} hint={ds.h.hint}] {f.detail}"
     let key := s!"{op.getD 0 ""}:{res.getD 0 ""}" ++
